@@ -148,6 +148,8 @@ def m_loads(it, s, *, object_hook=None, **kw):
             return ("leaf", x)
 
         return untree(it, conv(v), object_hook)
+    if s is None or isinstance(s, (int, float, list, dict, tuple)):
+        raise PyRaise(TypeError(f"the JSON object must be str, bytes or bytearray, not {type(s).__name__}"))
     raise Unsupported("json.loads of symbolic text")
 
 
